@@ -113,12 +113,18 @@ fn c11(seed: u64, thorough: bool) -> Scenario {
     } else if mode < 80 {
         g.world.stdin = StdinSpec::Piped;
         let n = g.world.files.len();
+        g.add_affects(&cfg);
         for i in 0..n {
-            if g.rng.chance(3, 4) {
+            let roll = g.rng.below(8);
+            if roll < 5 {
                 g.world.files[i].diff = FileDiff::Added;
+            } else if roll < 7 {
+                // one pure insertion: only the blocks that contain the new line are modified
+                if let Some(l) = g.pick_insert_line(i) {
+                    g.world.files[i].diff = FileDiff::Insert { line: l };
+                }
             }
         }
-        g.add_affects(&cfg);
         if g.rng.chance(1, 3) {
             g.world.args.globs = vec!["**/*.py".into(), "**/*.rb".into()];
         }
@@ -623,12 +629,17 @@ fn c14(seed: u64, thorough: bool) -> Scenario {
     if g.rng.chance(1, 3) {
         g.world.stdin = StdinSpec::Piped;
         let n = g.world.files.len();
+        g.add_affects(&cfg);
         for i in 0..n {
-            if g.rng.chance(3, 4) {
+            let roll = g.rng.below(8);
+            if roll < 5 {
                 g.world.files[i].diff = FileDiff::Added;
+            } else if roll < 7 {
+                if let Some(l) = g.pick_insert_line(i) {
+                    g.world.files[i].diff = FileDiff::Insert { line: l };
+                }
             }
         }
-        g.add_affects(&cfg);
     }
     // sometimes plant a malformed rule that the flags may or may not switch off
     if g.rng.chance(1, 4) {
